@@ -14,7 +14,7 @@ def run(c):
         return
     _, ev2 = pc.enumerate_programs(c, "C03", 5 if c.quick else 6, ["sum", "lt"], "holes", holes=True, every=25 if c.quick else 100)
     n = 1 if c.quick else 20
-    ev3 = pc.generated(c, "C03", [("corpus", 0), ("perturb", 700 * n), ("junk", 300 * n), ("punch", 500 * n), ("hopunch", 0), ("typed", 200 * n, 3), ("dependent", 300 * n), ("typelevel", 0), ("crossop", 0), ("groundindex", 300 * n), ("alias", 450 * n), ("lettypes", 0), ("holeparam", 0), ("holescope", 800 * n), ("groundindex2", 300 * n), ("typerec", 0), ("nestgroup", 360 * n)])
+    ev3 = pc.generated(c, "C03", [("corpus", 0), ("perturb", 700 * n), ("junk", 300 * n), ("punch", 500 * n), ("hopunch", 0), ("typed", 200 * n, 3), ("dependent", 300 * n), ("typelevel", 0), ("crossop", 0), ("groundindex", 300 * n), ("alias", 450 * n), ("lettypes", 0), ("holeparam", 0), ("holescope", 800 * n), ("groundindex2", 300 * n), ("typerec", 0), ("nestgroup", 360 * n), ("nestpick", 0)])
     allp = pc.validate(c, "C03", [ev1, ev2, ev3], "events")
 
     def mut(ev):
